@@ -480,8 +480,10 @@ def a64FormatMem (flags : Nat) (env : Env) (m : A64Mem) : Str :=
     | .none => if m.index.isSome ∨ off ≠ 0 then sb ++ "<None>".toList else sb
   let sb := if m.mode = 2 then sb ++ [']'] else sb
   let sb := match m.index with | some (t, id) => sb ++ ", ".toList ++ armFormatRegister env t id | none => sb
+  -- a post-index operand always shows its offset (repaired code, fixes/C20-2.patch; the pinned code printed `[x7]` for
+  -- the post-index form with offset 0, the same text as the plain offset form)
   let sb :=
-    if off ≠ 0 then
+    if off ≠ 0 ∨ (m.mode = 2 ∧ m.index.isNone) then
       sb ++ ", ".toList ++ (if hasBit flags ffHexOffsets ∧ off > 9 then ['0', 'x'] ++ uintStr off 16 else intStr off)
     else sb
   -- the extend/shift operation is printed whenever it is not the default `lsl 0` (repaired code, fixes/C20-1.patch;
